@@ -124,6 +124,23 @@ def run(ctx):
     ok = all(("cd_from == cd_to", True) in c["pyguards"] for c in direct)
     ctx.ob("X1", STREAM, "ClockDomainCrossing", "direct sink->source connect only when cd_from == cd_to", ok,
            "" if ok else "sink is connected straight to source outside the same-domain arm")
+    # every clocked element of the crossing lives in one of the two domains it was given: the same-domain buffer is renamed onto that
+    # domain, the FIFO's write / read sides onto cd_from / cd_to (a bare Buffer would be clocked by `sys`, whatever the stream's domain)
+    clocked = [i for i in fx.insts if i.cls in ("Buffer", "AsyncFIFO", "SyncFIFO", "PipeValid", "PipeReady")]
+    ctx.ob("X1", STREAM, "ClockDomainCrossing", "clocked stages:present", len(clocked) >= 2, f"{[i.cls for i in clocked]}", 0)
+    for i in clocked:
+        ws = [norm(w) for w in i.wrappers]
+        if ("cd_from == cd_to", True) in i.pyguards:
+            ok = any(w in ("ClockDomainsRenamer(cd_from)", "ClockDomainsRenamer(cd_to)", "ClockDomainsRenamer({'sys': cd_from})",
+                           "ClockDomainsRenamer({'sys': cd_to})") for w in ws)
+            want = "ClockDomainsRenamer(cd_from)"
+        else:
+            ok = any(w.replace('"', "'") in ("ClockDomainsRenamer({'write': cd_from, 'read': cd_to})", "ClockDomainsRenamer({'read': cd_to, 'write': cd_from})")
+                     for w in ws)
+            want = "ClockDomainsRenamer({'write': cd_from, 'read': cd_to})"
+        ctx.ob("X1", STREAM, "ClockDomainCrossing", f"{i.name} ({i.cls}) clocked by the crossing's own domains", ok,
+               "" if ok else f"{i.name} = {'∘'.join(ws) or '(no renamer)'}∘{i.cls}(..): expected {want} -- the stage runs in the default `sys` domain "
+                             f"while the stream it carries belongs to another one: tokens are dropped / duplicated when the clocks differ", i.node)
     # X4
     m = ctx.mod(STREAM)
     init = m.method("ClockDomainCrossing", "__init__")
